@@ -305,8 +305,10 @@ def check_case(ctx, c, use_driver=True):
             fv = py_fold(c["sr"], allm[b])
             mk, mv = ("value", fv)
         if status == "declined":
-            if use_driver and mk == "value" and c["algo"] != "markov-lazy" and c["time_dep"]:
+            if use_driver and mk == "value" and c["algo"] != "markov-lazy" and (
+                    c["time_dep"] or c["algo"] in ("seq", "markov-eager")):
                 # implementation declined where the model computes a value: correspondence broken
+                # (time-homogeneous transitions: Props/C10/Const.lean, the code returns exactly on durations 2^k)
                 ctx.fail("correspondence", "C10.decline-mismatch", witness=describe(c),
                          expected="a value (model completes)", got=f"declined: {r}")
             continue
